@@ -5,7 +5,8 @@ cd "$(dirname "$0")"
 export CARGO_NET_OFFLINE=true
 export CARGO_TARGET_DIR="$PWD/.build/cargo"
 mkdir -p .build
-(cd lean && lake build HLV hlv-driver)
+(cd translator && CARGO_TARGET_DIR="$PWD/../.build/cargo-translator" cargo build --release --offline)
+.build/cargo-translator/release/hlv-translator /repo/src lean/HLV/Generated/Facts.lean
+(cd lean && lake build HLV hlv-driver HLV.Static.Report)
 (cd harness && cargo build --release --offline)
-[ -d translator ] && (cd translator && cargo build --release --offline) || true
 echo "setup ok"
